@@ -1351,6 +1351,42 @@ APISET_LINES = [("S\tA\t*\tLN:i:10", "gfa1"), ("E\te1\ta+\tb-\t0\t2\t4\t6$\t2M",
 DT_DECLARED = 'S\tD\t*\txk:J:[1, 2, 3]\txl:J:[0.5, 1.5]\txc:A:c\txe:H:1A2B\txm:Z:12\txn:f:3'
 
 
+# tag texts that are valid but NOT in the spelling gfapy writes (compact JSON, signs, leading zeros,
+# exponents, a B array with a wider subtype than needed or integers in a float array): a field that
+# is still held as the text of the file must be copied as it is
+NONCANON_TAGS = 'xj:J:{"a":1,"b":[1,2]}\txk:J:[1,2,3]\txl:J:[ {"k" : null} ]\txi:i:+5\txn:i:007\txf:f:1e3\txg:f:.5' \
+                '\txb:B:i,1,2\txc:B:f,1,2\txd:B:S,+1\txz:Z:a  b'
+NONCANON_LINES = [("S\tN\t*\t" + NONCANON_TAGS, "gfa1"), ("L\tN\t+\tM\t-\t2M\t" + NONCANON_TAGS, "gfa1"),
+                  ("S\tn\t4\tacgt\t" + NONCANON_TAGS, "gfa2"), ("E\te9\tn+\tm-\t0\t2\t2\t4$\t2M\t" + NONCANON_TAGS, "gfa2"),
+                  ("Y\tf1\t" + NONCANON_TAGS, "gfa2"), ("U\tu9\tn m\t" + NONCANON_TAGS, "gfa2")]
+NONCANON_SETS = [("xj", "J", S('{"a":1,"b":[1,2]}')), ("xk", "J", S("[1,2,3]")), ("xi", "i", S("+5")), ("xn", "i", S("007")),
+                 ("xf", "f", S("1e3")), ("xg", "f", S(".5")), ("xb", "B", S("i,1,2")), ("xc", "B", S("f,1,2")),
+                 ("xh", "H", S("0AFF"))]
+
+
+def noncanonical_variants(tier):
+    """Clone subjects whose tags are spelled validly but not canonically, built at every level
+    (at level 0, and for the lazily parsed datatypes, the text is kept until first read) or
+    assigned as encoded strings; they are cloned BEFORE any read and compared at cloning time only
+    (a later read re-spells the copy that is read: the canonical-spelling assumption of C18)."""
+    subs = []
+    for vl in ((0, 1) if tier == "quick" else (0, 1, 2, 3)):
+        for text, ver in NONCANON_LINES:
+            subs.append(dict(mode="line", text=text, version=ver, vlevel=vl, prep=None, noread=True))
+        for ver, doc in (("gfa1", [NONCANON_LINES[0][0], "S\tM\t*", NONCANON_LINES[1][0]]),
+                         ("gfa2", [NONCANON_LINES[2][0], "S\tm\t4\t*", NONCANON_LINES[3][0], NONCANON_LINES[4][0],
+                                   NONCANON_LINES[5][0]])):
+            for i in range(len(doc)):
+                subs.append(dict(mode="conn", doc=doc, idx=i, vlevel=vl, prep=None, noread=True))
+    for vl in ((1, 3) if tier == "quick" else (0, 1, 2, 3)):
+        for text, ver in APISET_LINES:
+            subs.append(dict(mode="line", text=text, version=ver, vlevel=vl, prep="apiset", sets=NONCANON_SETS, noread=True))
+            if text.startswith("S\t"):
+                subs.append(dict(mode="conn", doc=[text, "S\tB\t*", "L\tA\t+\tB\t-\t*"], idx=0, vlevel=vl, prep="apiset",
+                                 sets=NONCANON_SETS, noread=True))
+    return subs
+
+
 def clone_variants(tier):
     """Further clone subjects, for the clone / read-program cases only: lines built at vlevel 0
     (fields stay encoded until first read), at vlevel 3, lines whose fields were assigned their
@@ -1405,6 +1441,8 @@ def read_program_jobs(subs, progs, tier, first_id=0):
     others = [p for p in progs if not p[0].startswith("get.")]
     jobs = []
     for i, sub in enumerate(subs):
+        if sub.get("noread"):
+            continue
         if tier == "quick":
             chosen = [gets[i % len(gets)], others[(2 * i) % len(others)], others[(2 * i + 1) % len(others)]]
         elif sub.get("variant"):
@@ -1772,7 +1810,7 @@ def check_c19(out, tier, seed):
         r[0]["id"] = i
     # the read programs (TLC: MC_Fields mode renum) on the subjects and on the variants
     rprogs, srp = enum_read_programs(2, "fields-mc-renum", max(2, NCPU // 4))
-    variants = clone_variants(tier)
+    variants = clone_variants(tier) + noncanonical_variants(tier)
     vres0 = _pmap(run_clone, list(enumerate(variants)))
     variants = [dict(v, variant=True) for v, r in zip(variants, vres0) if r[0] is not None]
     rjobs = read_program_jobs(subs + variants, rprogs, tier)
@@ -3092,6 +3130,11 @@ def selftest(mutant=True):
     _expect("clone", d, "C19.text-differs", "clone: pretend the clone permuted the columns", fails)
     d = copy.deepcopy(c); d["c"]["meta"] = d["c"]["meta"].replace('"field10", ', "").replace('"field1", ', '"field1", "field10", ')
     _expect("clone", d, "C19.metadata-differs", "clone: pretend the clone lists the field names in another order", fails)
+    sub = dict(mode="line", text=NONCANON_LINES[0][0], version="gfa1", vlevel=0, prep=None, noread=True)
+    c, _ = run_clone((0, sub))
+    _expect("clone", c, None, "clone: vlevel 0 segment with non-canonically spelled tags", fails)
+    d = copy.deepcopy(c); d["c"]["tags"][0] = 'xj:J:{"a": 1, "b": [1, 2]}'
+    _expect("clone", d, "C19.text-differs", "clone: pretend the clone re-spelled the unparsed J tag", fails)
     ops = (("set", "int", "orig"), ("set", "str", "copy"))
     c, _ = run_copies_history((0, 1, "new", ops, "clone"))
     _expect("chist", c, None, "chist: new tag 12 on the original, 'hello' on the clone", fails)
